@@ -310,6 +310,8 @@ def section_cases(rng, tier):
         yield Case("xr_section", [b"%d" % pos, text2, b"q"], kind="malformed", tags=["section-bad-trailer"])
         b = bytearray(text)
         for _ in range(rng.randint(1, 3)):
+            if not b:
+                break
             p = rng.randrange(len(b))
             op = rng.randrange(4)
             if op == 0:
